@@ -132,6 +132,14 @@ func runC13(t *testing.T, e *worlds.Env, tier string) (bool, any) {
 			layer4.VerifNewRoute([]layer4.MatcherSet{{first(clTwoStep, 1, 1)}}, []layer4.NextHandler{b.Handler(&pcon, sig)}),
 			layer4.VerifNewRoute([]layer4.MatcherSet{{first(clTerminal, tp.Pick("term-need", 1, 3, 2500), 1)}}, []layer4.NextHandler{b.Handler(&term, sig)}),
 		}
+		// TLS termination, optionally followed by another wrapping handler (the consumer must still
+		// get the TLS connection state)
+		tlsChain := []layer4.NextHandler{b.Handler(&tlsh, sig)}
+		if tp.Prob(1, 3, "tls-then-throttle") {
+			thr2 := HSpec{Kind: "throttle", Name: "thrT", Rate: 5000000, Burst: 8192}
+			tlsChain = append(tlsChain, b.Handler(&thr2, sig))
+			sample.Wrapper += " tls+throttle"
+		}
 		pairLast := tp.Prob(1, 2, "pair-last")
 		// (with a large need the connection being teed still holds prefetched bytes that the
 		// routes after it do not pull: the consumer reads them through the wrapper)
@@ -159,7 +167,7 @@ func runC13(t *testing.T, e *worlds.Env, tier string) (bool, any) {
 			layer4.VerifNewRoute([]layer4.MatcherSet{{first(clNever, 1<<30, 2)}}, []layer4.NextHandler{b.Handler(&term, sig)}),
 			layer4.VerifNewRoute([]layer4.MatcherSet{{first(clError, tp.Pick("err-need", 1, 40), 3)}}, []layer4.NextHandler{b.Handler(&term, sig)}),
 			layer4.VerifNewRoute([]layer4.MatcherSet{{first(clFull, 1<<30, 2)}}, []layer4.NextHandler{b.Handler(&term, sig)}),
-			layer4.VerifNewRoute([]layer4.MatcherSet{{b.Matcher(&tlsm)}}, []layer4.NextHandler{b.Handler(&tlsh, sig)}),
+			layer4.VerifNewRoute([]layer4.MatcherSet{{b.Matcher(&tlsm)}}, tlsChain),
 			// asks for needFall bytes of a fall-through connection, then says no
 			layer4.VerifNewRoute([]layer4.MatcherSet{{first(clFall, needFall, 0)}}, []layer4.NextHandler{b.Handler(&term, sig)}),
 		}
